@@ -96,18 +96,19 @@ type c20Part struct {
 	reg    *RecRegistry
 	toks   map[string][]core.StrategyToken
 	lim    int
+	added  bool // partition c (fraction 0.2) was added dynamically
 }
 
 func c20PartModel(lookup bool) *mc.Model {
 	kind := map[bool]string{true: "lookup", false: "predicate"}[lookup]
-	ops := []string{"TryAcquire(a)", "TryAcquire(b)", "Release(a)", "Release(b)", "SetLimit(1)", "SetLimit(4)", "SetLimit(3)"}
+	ops := []string{"TryAcquire(a)", "TryAcquire(b)", "Release(a)", "Release(b)", "SetLimit(1)", "SetLimit(4)", "SetLimit(3)", "AddPartition(c,0.2)", "TryAcquire(c)", "Release(c)"}
 	fr := map[string]float64{"a": 0.3, "b": 0.7}
 	if !lookup {
 		fr = map[string]float64{"a": 0.5, "b": 0.5}
 	}
 	return &mc.Model{
 		Name:   "C20/strategy/" + kind,
-		Params: "ops TryAcquire{a,b} Release{a,b} SetLimit{1,3,4}; initial limit 2",
+		Params: "ops TryAcquire{a,b,c} Release{a,b,c} SetLimit{1,3,4} AddPartition(c); initial limit 2",
 		New: func(t *mc.Tr) any {
 			reg := NewRecRegistry()
 			return &c20Part{lookup: lookup, s: newStrategy(kind, 2, reg), reg: reg, toks: map[string][]core.StrategyToken{}, lim: 2}
@@ -127,7 +128,7 @@ func c20PartModel(lookup bool) *mc.Model {
 					if len(sm) != before+1 || int(sm[len(sm)-1]) != len(st.toks[key]) {
 						t.Fail(kind+"/bin-inflight-sample", "granted TryAcquire(%s) emitted bin in-flight samples %v, bin holds %d", key, sm[before:], len(st.toks[key]))
 					}
-					total := len(st.toks["a"]) + len(st.toks["b"])
+					total := len(st.toks["a"]) + len(st.toks["b"]) + len(st.toks["c"])
 					if tok.InFlightCount() != total {
 						t.Fail(kind+"/token-inflight", "token reports in-flight %d, outstanding %d", tok.InFlightCount(), total)
 					}
@@ -139,10 +140,43 @@ func c20PartModel(lookup bool) *mc.Model {
 					st.toks[key][0].Release()
 					st.toks[key] = st.toks[key][1:]
 				}
-			default:
+			case k < 7:
 				v := []int{1, 4, 3}[k-4]
 				st.s.SetLimit(v)
 				st.lim = v
+			case k == 7:
+				// a partition added at run time reports its in-flight samples and its share like the others
+				if !st.added {
+					st.added = true
+					if lookup {
+						st.s.(*strategy.LookupPartitionStrategy).AddPartition("c", strategy.NewLookupPartitionWithMetricRegistry("c", 0.2, 1, st.reg))
+					} else {
+						st.s.(*strategy.PredicatePartitionStrategy).AddPartition(strategy.NewPredicatePartitionWithMetricRegistry("c", 0.2, matchKey("c"), st.reg))
+					}
+				}
+			case k == 8:
+				if st.added {
+					mk := core.MetricInFlight + "{partition:c}"
+					before := len(st.reg.Samples[mk])
+					if tok, ok := st.s.TryAcquire(ctxFor("c")); ok {
+						st.toks["c"] = append(st.toks["c"], tok)
+						sm := st.reg.Samples[mk]
+						if len(sm) != before+1 || int(sm[len(sm)-1]) != len(st.toks["c"]) {
+							t.Fail(kind+"/bin-inflight-sample", "granted TryAcquire(c) on the added partition emitted bin in-flight samples %v, bin holds %d", sm[before:], len(st.toks["c"]))
+						}
+					}
+				}
+			default:
+				if len(st.toks["c"]) > 0 {
+					st.toks["c"][0].Release()
+					st.toks["c"] = st.toks["c"][1:]
+				}
+			}
+			if st.added {
+				want := share(st.lim, 0.2)
+				if g, ok := st.reg.Gauge(core.MetricPartitionLimit + "{partition:c}"); !ok || int(g) != want {
+					t.Fail(kind+"/partition-gauge", "limit.partition gauge of the added partition c = %v (registered=%v), enforced share %d", g, ok, want)
+				}
 			}
 			if g, ok := st.reg.Gauge(core.MetricLimit); !ok || int(g) != st.lim {
 				t.Fail(kind+"/limit-gauge", "limit gauge=%v (registered=%v), enforced limit %d", g, ok, st.lim)
@@ -156,7 +190,7 @@ func c20PartModel(lookup bool) *mc.Model {
 		},
 		FP: func(x any) string {
 			st := x.(*c20Part)
-			return fmt.Sprint(len(st.toks["a"]), len(st.toks["b"]), st.lim)
+			return fmt.Sprint(len(st.toks["a"]), len(st.toks["b"]), len(st.toks["c"]), st.lim, st.added)
 		},
 	}
 }
@@ -373,16 +407,24 @@ const pollEvery = 5 * time.Second
 func newPollReg(kind string) (pollReg, func()) {
 	switch kind {
 	case "gometrics":
-		r, err := gmreg.NewGoMetricsMetricRegistry(gometricslib.NewRegistry(), "", "p", pollEvery)
+		back := gometricslib.NewRegistry()
+		r, err := gmreg.NewGoMetricsMetricRegistry(back, "", "p", pollEvery)
 		if err != nil {
 			panic(err)
+		}
+		pollBackend = func(id string) (float64, int, bool) {
+			g, ok := back.Get("p." + id).(gometricslib.GaugeFloat64)
+			if !ok {
+				return 0, 0, false
+			}
+			return g.Value(), 1, true
 		}
 		return r, func() {}
 	default:
 		// one statsd client per process (creating and closing one costs milliseconds): it only receives
 		// the polled gauge values and keeps no state the life-cycle scenarios observe
 		if sharedDD == nil {
-			client, err := dogstatsd.NewWithWriter(&memWriter{}, dogstatsd.WithoutTelemetry(), dogstatsd.WithoutClientSideAggregation())
+			client, err := dogstatsd.NewWithWriter(sharedW, dogstatsd.WithoutTelemetry(), dogstatsd.WithoutClientSideAggregation(), dogstatsd.WithMaxMessagesPerPayload(1))
 			if err != nil {
 				panic(err)
 			}
@@ -392,11 +434,40 @@ func newPollReg(kind string) (pollReg, func()) {
 		if err != nil {
 			panic(err)
 		}
+		sharedDD.Flush()
+		sharedOff = len(sharedW.String())
+		pollBackend = func(id string) (float64, int, bool) {
+			// datagrams written since the previous look: "p.<id>:<value>|g"
+			sharedDD.Flush()
+			out := sharedW.String()[sharedOff:]
+			n, val, found := 0, 0.0, false
+			for _, line := range strings.Split(out, "\n") {
+				if strings.HasPrefix(line, "p."+id+":") && strings.Contains(line, "|g") {
+					fmt.Sscanf(strings.TrimPrefix(line, "p."+id+":"), "%g", &val)
+					n++
+					found = true
+				}
+			}
+			return val, n, found
+		}
 		return r, func() {}
 	}
 }
 
 var sharedDD *dogstatsd.Client
+var sharedW = &memWriter{}
+var sharedOff int
+
+// pollBackend looks a polled gauge up in the backend of the registry built last: its value, how
+// many times it was written since the previous mark (datadog) and whether it exists at all.
+var pollBackend func(id string) (val float64, writes int, ok bool)
+
+func pollBackendMark() {
+	if sharedDD != nil {
+		sharedDD.Flush()
+		sharedOff = len(sharedW.String())
+	}
+}
 
 func livePollers(main *vrt.Thread) int {
 	n := 0
@@ -441,8 +512,18 @@ func c20Lifecycle(kind string, depth int) *mc.Scenario {
 				case 3:
 					history = append(history, "tick")
 					before := append([]int{}, polls...)
+					pollBackendMark()
 					vtime.Sleep(pollEvery + 1)
 					vrt.WaitQuiescent()
+					if started {
+						// the polled value must have reached the backend as a gauge under the prefixed name
+						for i := range polls {
+							id := fmt.Sprintf("g%d", i)
+							if v, n, ok := pollBackend(id); !ok || v != float64(i) || n != 1 {
+								x.Fail(kind+"/gauge-not-forwarded", "after a poll the backend holds gauge p.%s = %v (present=%v, written %d times), the supplier returned %d; history %v", id, v, ok, n, i, history)
+							}
+						}
+					}
 					for i := range polls {
 						d := polls[i] - before[i]
 						want := 0
@@ -646,6 +727,9 @@ func c20Names(c *Ctx) {
 				},
 				"settable": func(reg core.MetricRegistry) core.Limit { return limit.NewSettableLimit(nm, 4, reg, tags...) },
 				"fixed":    func(reg core.MetricRegistry) core.Limit { return limit.NewFixedLimit(nm, 4, reg, tags...) },
+				"traced(aimd)": func(reg core.MetricRegistry) core.Limit {
+					return limit.NewTracedLimit(limit.NewAIMDLimit(nm, 4, 0.9, 1, reg, tags...), limit.NoopLimitLogger{})
+				},
 				"gradient": func(reg core.MetricRegistry) core.Limit {
 					return limit.NewGradientLimitWithRegistry(nm, 4, 1, 10, 1.0, nil, 2.0, -1, nil, reg, tags...)
 				},
@@ -657,6 +741,7 @@ func c20Names(c *Ctx) {
 			for algo, mk := range mks {
 				reg := NewRecRegistry()
 				l := mk(reg)
+				l.OnSample(0, 2e6, 2, false)
 				l.OnSample(0, 1e6, 3, true)
 				base := nm
 				if base == "" {
@@ -667,12 +752,13 @@ func c20Names(c *Ctx) {
 				}
 				st.Transitions++
 				st.Nontrivial++
-				for metric, want := range map[string]float64{core.MetricRTT: 1e6, core.MetricInFlight: 3, core.MetricDropped: 1} {
+				// a success then a drop: RTT and in-flight once per sample, the drop counter only for the drop
+				for metric, want := range map[string][]float64{core.MetricRTT: {2e6, 1e6}, core.MetricInFlight: {2, 3}, core.MetricDropped: {1}} {
 					key := mkey(base+metric, tags)
 					states[algo+key] = true
 					got := reg.Samples[key]
-					if len(got) != 1 || got[0] != want {
-						fail(algo+"/metric-name", "%s limit named %q with tags %v: sample for %q is %v (want one sample %v); keys present: %v", algo, nm, tags, key, got, want, sampleKeys(reg))
+					if fmt.Sprint(got) != fmt.Sprint(want) {
+						fail(algo+"/metric-name", "%s limit named %q with tags %v: samples for %q are %v (want %v); keys present: %v", algo, nm, tags, key, got, want, sampleKeys(reg))
 					}
 				}
 				if g, ok := reg.Gauges[mkey(base+core.MetricLimit, tags)]; !ok {
